@@ -376,6 +376,22 @@ def run(repo: Repo, L: Ledger, tier: str):
     iv, fv = (e.id for e in lp.target.elts)
     ok5, why5 = True, ""
     kinds = set()
+
+    def _rows_receiver(r_):
+        """<x>.rows, or a local that stands for some scaffold's rows list (new_rows = new_scffld.rows)"""
+        if isinstance(r_, ast.Attribute) and r_.attr == "rows":
+            return True
+        if isinstance(r_, ast.Name):
+            ds_ = [d_ for d_ in local_defs(addm, r_.id) if not (isinstance(d_, ast.Constant) and d_.value is None)]
+            return bool(ds_) and all(isinstance(d_, ast.Attribute) and d_.attr == "rows" for d_ in ds_)
+        return False
+
+    def _input_row_before(e_):
+        """<input scaffold>.rows[i - 1], directly or through a local standing for the rows list"""
+        if isinstance(e_, ast.Subscript) and norm(e_.slice).replace(" ", "") == f"{iv}-1":
+            return _rows_receiver(e_.value)
+        return False
+
     for p in PathEnum((0, 1), exc_edges=False).block(lp.body):
         frag_adds, gap_adds = [], []
         had_prev = None
@@ -394,7 +410,7 @@ def run(repo: Repo, L: Ledger, tier: str):
                         if f"{iv}-1" in sides or (iv in sides and any(x.endswith("+1") or x.startswith("1+") for x in sides)):
                             nonconsec = v if isinstance(t.ops[0], ast.NotEq) else (not v)
             if e.kind == "stmt":
-                for c in [x for x in [e.node, *walk_shallow(e.node)] if isinstance(x, ast.Call) and isinstance(x.func, ast.Attribute) and x.func.attr == "add_row"]:
+                for c in [x for x in [e.node, *walk_shallow(e.node)] if isinstance(x, ast.Call) and isinstance(x.func, ast.Attribute) and x.args and (x.func.attr == "add_row" or (x.func.attr == "append" and _rows_receiver(x.func.value)))]:
                     a = c.args[0]
                     if is_name(a, fv):
                         frag_adds.append(i)
@@ -418,21 +434,21 @@ def run(repo: Repo, L: Ledger, tier: str):
                     return {"join"}
                 if isinstance(a, ast.Name):
                     defs = [norm(d).replace(" ", "") for d in local_defs(addm, a.id)]
-                    if defs and all(d.endswith(f".rows[{iv}-1]") for d in defs):
+                    if defs and all(_input_row_before(d) for d in local_defs(addm, a.id)):
                         return {"input"}
                     if defs and all(d == "self.default_gap" for d in defs):
                         return {"join"}
                     if len(defs) == 1 and isinstance(local_defs(addm, a.id)[0], ast.IfExp):
                         return classify(local_defs(addm, a.id)[0])
                     # v = <input row before>; if not isinstance(v, Gap): v = <join gap>
-                    if len(defs) == 2 and sorted(d == "self.default_gap" for d in defs) == [False, True] and any(d.endswith(f".rows[{iv}-1]") for d in defs):
+                    if len(defs) == 2 and sorted(d == "self.default_gap" for d in defs) == [False, True] and any(_input_row_before(d) for d in local_defs(addm, a.id)):
                         from ..flow import cond_facts as _cf
 
                         for g_ in walk_shallow(addm.node):
                             if isinstance(g_, ast.If) and any(isinstance(b_, ast.Assign) and is_name(b_.targets[0], a.id) and norm(b_.value) == "self.default_gap" for b_ in g_.body):
                                 if any(norm(t_).replace(" ", "") == f"isinstance({a.id},Gap)" and v_ is False for t_, v_ in _cf(g_.test, True)):
                                     return {"input", "join"}
-                if isinstance(a, ast.Subscript) and src.replace(" ", "").endswith(f".rows[{iv}-1]"):
+                if _input_row_before(a):
                     return {"input"}
                 if isinstance(a, ast.IfExp):
                     x, y = classify(a.body), classify(a.orelse)
@@ -447,11 +463,21 @@ def run(repo: Repo, L: Ledger, tier: str):
             for _, a in gap_adds:
                 ks = classify(a)
                 if ks is None:
+                    # refuted only by a value that is recognisably something else: another input row, a freshly made gap
+                    other_row = isinstance(a, ast.Subscript) and _rows_receiver(a.value)
+                    fresh = isinstance(a, ast.Call) and dotted(a.func) == "Gap"
+                    if not (other_row or fresh):
+                        raise AnalysisError(f"{addm.short}: where the inserted gap '{norm(a)[:40]}' comes from is not understood (neither the row before the fragment nor the configured join gap, directly or through a local)")
                     ok5, why5 = False, f"inserted gap '{norm(a)}' is neither the input row preceding the fragment nor the join gap"
                 else:
                     kinds |= ks
         if len(frag_adds) > 1:
             ok5, why5 = False, "fragment added twice"
+    if ok5 and not kinds:
+        # no gap insertion recognised at all: refuted only when the loop adds nothing but the fragment itself
+        others_ = [c for c in walk_shallow(lp) if isinstance(c, ast.Call) and isinstance(c.func, ast.Attribute) and c.func.attr in ("append", "extend", "insert", "add_row", "append_scaffold") and not (c.args and is_name(c.args[0], fv))]
+        if others_:
+            raise AnalysisError(f"{addm.short}: rows are added by '{norm(others_[0])[:50]}', which is not one of the forms the gap rule reads: no verdict")
     if kinds != {"join", "input"}:
         ok5, why5 = False, why5 or f"gap insertion kinds {sorted(kinds)}: both the input gap and the join gap case are needed"
     L.check(ok5, "R5", addm.short, "gaps only between two fragments; input gap or join gap", why5, addm.loc(lp))
